@@ -49,7 +49,7 @@ impl Monitor for C06 {
     fn run_case(&self, ctx: &Ctx, case: u64, acc: &mut Acc) {
         let parts = ctx.case_seed(case);
         let mut rng = Rng::from_parts(&parts);
-        let profile = *rng.pick(&[Profile::Gc, Profile::Gc, Profile::Gc, Profile::Idle, Profile::Idle, Profile::Delete, Profile::Mixed, Profile::Huge]);
+        let profile = *rng.pick(&[Profile::Gc, Profile::Gc, Profile::Gc, Profile::Idle, Profile::Idle, Profile::Delete, Profile::Mixed, Profile::Huge, Profile::BigName, Profile::BigName]);
         let policy = if rng.chance(3, 4) { if rng.chance(1, 2) { crate::ops::Policy::AlwaysFlush } else { crate::ops::Policy::AlwaysFsync } } else { *rng.pick(&ALL_POLICIES) };
         let real = case >= REAL_BASE;
         let profile = if real { Profile::Gc } else { profile };
